@@ -1,5 +1,5 @@
 /- Proofs/Info/Musepack.lean — the SV7 header read back; the SV8 variable-length integers, the packet loop over
-SH / other packets / RG; totality of the parser up to the BytesIO seek overflow -/
+SH / other packets / RG; totality of the parser -/
 import MutagenModel.Proofs.Info.Common
 import MutagenModel.Spec.Info.Musepack
 set_option linter.unusedVariables false
@@ -426,9 +426,6 @@ theorem parse_sv8 (h : Spec.Musepack.Sv8) (ok : h.OK) (rest : Bytes) (hrest : le
     show keyOK keySH = true from by decide, hloop, Bool.false_eq_true, or_self, hnz, Sv8.expected, rgAttr]
 
 
-/-- no packet-size field, read at any position, points beyond what a file offset can hold -/
-def NoHugePacket (f : Bytes) : Prop := ∀ pos n l, sv8Int f 9 pos 0 0 = some (n, l) → pos + n < 2 ^ 63
-
 theorem rates_nonzero : ∀ r ∈ Generated.musepackRates, r ≠ 0 := by decide
 
 theorem parseSH_spec (f : Bytes) (p d : Nat) (a : Musepack.Sv8) :
@@ -473,7 +470,7 @@ theorem keyOK_length (k : Bytes) (h : keyOK k = true) : k.length = 2 := by
 
 theorem sv8Loop_spec (f : Bytes) : ∀ (fuel pos : Nat) (ft : Bytes) (nSH nRG : Bool) (a : Musepack.Sv8),
     f.length ≤ fuel + pos → (nSH = true ∨ a.sampleRate ≠ 0) →
-    (∀ e, sv8Loop f fuel pos ft nSH nRG a = .error e → e = .mutagen ∨ (e = .overflow ∧ ¬ NoHugePacket f)) ∧
+    (∀ e, sv8Loop f fuel pos ft nSH nRG a = .error e → e = .mutagen) ∧
     (∀ s r a', sv8Loop f fuel pos ft nSH nRG a = .ok (s, r, a') → (s = true ∨ a'.sampleRate ≠ 0)) := by
   intro fuel
   induction fuel with
@@ -483,10 +480,10 @@ theorem sv8Loop_spec (f : Bytes) : ∀ (fuel pos : Nat) (ft : Bytes) (nSH nRG : 
     split
     · exact ⟨(fun e he => by cases he), fun s r a' he => by cases he; exact hinv⟩
     · split
-      · exact ⟨(fun e he => by cases he; exact Or.inl rfl), fun s r a' he => by cases he⟩
+      · exact ⟨(fun e he => by cases he; rfl), fun s r a' he => by cases he⟩
       · rename_i n slen hvi
         split
-        · exact ⟨(fun e he => by cases he; exact Or.inl rfl), fun s r a' he => by cases he⟩
+        · exact ⟨(fun e he => by cases he; rfl), fun s r a' he => by cases he⟩
         · rename_i hn
           simp only
           -- what the step yields
@@ -497,18 +494,18 @@ theorem sv8Loop_spec (f : Bytes) : ∀ (fuel pos : Nat) (ft : Bytes) (nSH nRG : 
                     else if ft = keyRG then
                       if ¬ nRG = true then .error .mutagen
                       else (parseRG f (pos + slen) (n - 2 - slen) a).map fun r => (nSH, false, r.1, r.2)
-                    else if pos + slen + (n - 2 - slen) > 2 ^ 63 - 1 then .error .overflow
+                    else if pos + slen + (n - 2 - slen) > 2 ^ 63 - 1 then .error .mutagen
                     else .ok (nSH, nRG, a, pos + slen + (n - 2 - slen))) →
-              (∀ e, st = .error e → e = .mutagen ∨ (e = .overflow ∧ ¬ NoHugePacket f)) ∧
+              (∀ e, st = .error e → e = .mutagen) ∧
               (∀ s r a' p', st = .ok (s, r, a', p') → pos ≤ p' ∧ (s = true ∨ a'.sampleRate ≠ 0)) := by
             intro st hst
             subst hst
             split
             · split
-              · exact ⟨(fun e he => by cases he; exact Or.inl rfl), fun s r a' p' he => by cases he⟩
+              · exact ⟨(fun e he => by cases he; rfl), fun s r a' p' he => by cases he⟩
               · obtain ⟨h1, h2⟩ := parseSH_spec f (pos + slen) (n - 2 - slen) a
                 cases hp : parseSH f (pos + slen) (n - 2 - slen) a with
-                | error e' => exact ⟨(fun e he => by simp [Except.map] at he; subst he; exact Or.inl (h1 _ hp)), fun s r a' p' he => by simp [Except.map] at he⟩
+                | error e' => exact ⟨(fun e he => by simp [Except.map] at he; subst he; exact h1 _ hp), fun s r a' p' he => by simp [Except.map] at he⟩
                 | ok v =>
                   refine ⟨(fun e he => by simp [Except.map] at he), fun s r a' p' he => ?_⟩
                   simp only [Except.map, Except.ok.injEq, Prod.mk.injEq] at he
@@ -517,10 +514,10 @@ theorem sv8Loop_spec (f : Bytes) : ∀ (fuel pos : Nat) (ft : Bytes) (nSH nRG : 
                   exact ⟨by omega, Or.inr this.2⟩
             · split
               · split
-                · exact ⟨(fun e he => by cases he; exact Or.inl rfl), fun s r a' p' he => by cases he⟩
+                · exact ⟨(fun e he => by cases he; rfl), fun s r a' p' he => by cases he⟩
                 · obtain ⟨h1, h2⟩ := parseRG_spec f (pos + slen) (n - 2 - slen) a
                   cases hp : parseRG f (pos + slen) (n - 2 - slen) a with
-                  | error e' => exact ⟨(fun e he => by simp [Except.map] at he; subst he; exact Or.inl (h1 _ hp)), fun s r a' p' he => by simp [Except.map] at he⟩
+                  | error e' => exact ⟨(fun e he => by simp [Except.map] at he; subst he; exact h1 _ hp), fun s r a' p' he => by simp [Except.map] at he⟩
                   | ok v =>
                     refine ⟨(fun e he => by simp [Except.map] at he), fun s r a' p' he => ?_⟩
                     simp only [Except.map, Except.ok.injEq, Prod.mk.injEq] at he
@@ -532,9 +529,7 @@ theorem sv8Loop_spec (f : Bytes) : ∀ (fuel pos : Nat) (ft : Bytes) (nSH nRG : 
                 · rename_i hov
                   refine ⟨fun e he => ?_, fun s r a' p' he => by cases he⟩
                   cases he
-                  refine Or.inr ⟨rfl, fun hno => ?_⟩
-                  have := hno pos n slen hvi
-                  omega
+                  rfl
                 · refine ⟨(fun e he => by cases he), fun s r a' p' he => ?_⟩
                   cases he
                   exact ⟨by omega, hinv⟩
@@ -545,7 +540,7 @@ theorem sv8Loop_spec (f : Bytes) : ∀ (fuel pos : Nat) (ft : Bytes) (nSH nRG : 
           · rename_i s0 r0 a0 p0 hok
             obtain ⟨hp0, hinv0⟩ := hs2 _ _ _ _ hok
             split
-            · exact ⟨(fun e he => by cases he; exact Or.inl rfl), fun s r a' he => by cases he⟩
+            · exact ⟨(fun e he => by cases he; rfl), fun s r a' he => by cases he⟩
             · rename_i hk
               have := keyOK_length _ (by simpa using hk)
               rw [length_readAt] at this
@@ -556,10 +551,10 @@ theorem sv8Loop_spec (f : Bytes) : ∀ (fuel pos : Nat) (ft : Bytes) (nSH nRG : 
     split
     · exact ⟨(fun e he => by cases he), fun s r a' he => by cases he; exact hinv⟩
     · split
-      · exact ⟨(fun e he => by cases he; exact Or.inl rfl), fun s r a' he => by cases he⟩
+      · exact ⟨(fun e he => by cases he; rfl), fun s r a' he => by cases he⟩
       · rename_i n slen hvi
         split
-        · exact ⟨(fun e he => by cases he; exact Or.inl rfl), fun s r a' he => by cases he⟩
+        · exact ⟨(fun e he => by cases he; rfl), fun s r a' he => by cases he⟩
         · rename_i hn
           simp only
           -- what the step yields
@@ -570,18 +565,18 @@ theorem sv8Loop_spec (f : Bytes) : ∀ (fuel pos : Nat) (ft : Bytes) (nSH nRG : 
                     else if ft = keyRG then
                       if ¬ nRG = true then .error .mutagen
                       else (parseRG f (pos + slen) (n - 2 - slen) a).map fun r => (nSH, false, r.1, r.2)
-                    else if pos + slen + (n - 2 - slen) > 2 ^ 63 - 1 then .error .overflow
+                    else if pos + slen + (n - 2 - slen) > 2 ^ 63 - 1 then .error .mutagen
                     else .ok (nSH, nRG, a, pos + slen + (n - 2 - slen))) →
-              (∀ e, st = .error e → e = .mutagen ∨ (e = .overflow ∧ ¬ NoHugePacket f)) ∧
+              (∀ e, st = .error e → e = .mutagen) ∧
               (∀ s r a' p', st = .ok (s, r, a', p') → pos ≤ p' ∧ (s = true ∨ a'.sampleRate ≠ 0)) := by
             intro st hst
             subst hst
             split
             · split
-              · exact ⟨(fun e he => by cases he; exact Or.inl rfl), fun s r a' p' he => by cases he⟩
+              · exact ⟨(fun e he => by cases he; rfl), fun s r a' p' he => by cases he⟩
               · obtain ⟨h1, h2⟩ := parseSH_spec f (pos + slen) (n - 2 - slen) a
                 cases hp : parseSH f (pos + slen) (n - 2 - slen) a with
-                | error e' => exact ⟨(fun e he => by simp [Except.map] at he; subst he; exact Or.inl (h1 _ hp)), fun s r a' p' he => by simp [Except.map] at he⟩
+                | error e' => exact ⟨(fun e he => by simp [Except.map] at he; subst he; exact h1 _ hp), fun s r a' p' he => by simp [Except.map] at he⟩
                 | ok v =>
                   refine ⟨(fun e he => by simp [Except.map] at he), fun s r a' p' he => ?_⟩
                   simp only [Except.map, Except.ok.injEq, Prod.mk.injEq] at he
@@ -590,10 +585,10 @@ theorem sv8Loop_spec (f : Bytes) : ∀ (fuel pos : Nat) (ft : Bytes) (nSH nRG : 
                   exact ⟨by omega, Or.inr this.2⟩
             · split
               · split
-                · exact ⟨(fun e he => by cases he; exact Or.inl rfl), fun s r a' p' he => by cases he⟩
+                · exact ⟨(fun e he => by cases he; rfl), fun s r a' p' he => by cases he⟩
                 · obtain ⟨h1, h2⟩ := parseRG_spec f (pos + slen) (n - 2 - slen) a
                   cases hp : parseRG f (pos + slen) (n - 2 - slen) a with
-                  | error e' => exact ⟨(fun e he => by simp [Except.map] at he; subst he; exact Or.inl (h1 _ hp)), fun s r a' p' he => by simp [Except.map] at he⟩
+                  | error e' => exact ⟨(fun e he => by simp [Except.map] at he; subst he; exact h1 _ hp), fun s r a' p' he => by simp [Except.map] at he⟩
                   | ok v =>
                     refine ⟨(fun e he => by simp [Except.map] at he), fun s r a' p' he => ?_⟩
                     simp only [Except.map, Except.ok.injEq, Prod.mk.injEq] at he
@@ -605,9 +600,7 @@ theorem sv8Loop_spec (f : Bytes) : ∀ (fuel pos : Nat) (ft : Bytes) (nSH nRG : 
                 · rename_i hov
                   refine ⟨fun e he => ?_, fun s r a' p' he => by cases he⟩
                   cases he
-                  refine Or.inr ⟨rfl, fun hno => ?_⟩
-                  have := hno pos n slen hvi
-                  omega
+                  rfl
                 · refine ⟨(fun e he => by cases he), fun s r a' p' he => ?_⟩
                   cases he
                   exact ⟨by omega, hinv⟩
@@ -618,7 +611,7 @@ theorem sv8Loop_spec (f : Bytes) : ∀ (fuel pos : Nat) (ft : Bytes) (nSH nRG : 
           · rename_i s0 r0 a0 p0 hok
             obtain ⟨hp0, hinv0⟩ := hs2 _ _ _ _ hok
             split
-            · exact ⟨(fun e he => by cases he; exact Or.inl rfl), fun s r a' he => by cases he⟩
+            · exact ⟨(fun e he => by cases he; rfl), fun s r a' he => by cases he⟩
             · exact ih (p0 + 2) _ s0 r0 a0 (by omega) hinv0
 
 
@@ -642,12 +635,12 @@ theorem parseSv467_total (f : Bytes) (p0 : Nat) : ∀ e, parseSv467 f p0 = .erro
       · cases he
 
 theorem parseSv8_total (f : Bytes) (pos : Nat) :
-    ∀ e, parseSv8 f pos = .error e → e = .mutagen ∨ (e = .overflow ∧ ¬ NoHugePacket f) := by
+    ∀ e, parseSv8 f pos = .error e → e = .mutagen := by
   intro e he
   unfold parseSv8 at he
   simp only at he
   split at he
-  · cases he; exact Or.inl rfl
+  · cases he; rfl
   · obtain ⟨h1, h2⟩ := sv8Loop_spec f f.length (pos + 2) (readAt f pos 2) true true {} (by omega) (Or.inl rfl)
     split at he
     · rename_i e' hl
@@ -655,7 +648,7 @@ theorem parseSv8_total (f : Bytes) (pos : Nat) :
       exact h1 _ hl
     · rename_i s r a hl
       split at he
-      · cases he; exact Or.inl rfl
+      · cases he; rfl
       · rename_i hneed
         have hs := h2 s r a hl
         have : a.sampleRate ≠ 0 := by
@@ -665,24 +658,24 @@ theorem parseSv8_total (f : Bytes) (pos : Nat) :
         simp only [this, if_false] at he
         cases he
 
-theorem parse_total_aux (f : Bytes) : ∀ e, parse f = .error e → e = .mutagen ∨ (e = .overflow ∧ ¬ NoHugePacket f) := by
+theorem parse_total_aux (f : Bytes) : ∀ e, parse f = .error e → e = .mutagen := by
   intro e he
   unfold parse at he
   simp only at he
   split at he
-  · cases he; exact Or.inl rfl
+  · cases he; rfl
   · split at he
     · rename_i e' hst
       cases he
       split at hst
       · split at hst
-        · cases hst; exact Or.inl rfl
+        · cases hst; rfl
         · split at hst
-          · cases hst; exact Or.inl rfl
+          · cases hst; rfl
           · cases hst
       · cases hst
     · split at he
       · exact parseSv8_total f _ e he
-      · exact Or.inl (parseSv467_total f _ e he)
+      · exact parseSv467_total f _ e he
 
 end Mutagen.Info.Musepack
